@@ -165,7 +165,7 @@ func init() {
 			{Name: "flat-ac", Weight: 2, Fn: c02Profile("ac")},
 		},
 		Components: map[string][]string{
-			"real": {"pkg/blobstore/local: persistent block list, periodic syncer (both routines), directory-backed state store, block-device-backed allocator and location record array, old/current/new map, hashing index, flat/hierarchical blob access", "pkg/blobstore/buffer", "pkg/proto/blobstore/local"},
+			"real": {"pkg/blobstore/configuration new_blob_access.go (W-config runs: the store is assembled by the unmodified NewBlobAccessFromConfiguration; top-level decorators, metrics wrappers, allocator collectors)", "pkg/blobstore/local: persistent block list, periodic syncer (both routines), directory-backed state store, block-device-backed allocator and location record array, old/current/new map, hashing index, flat/hierarchical blob access", "pkg/blobstore/buffer", "pkg/proto/blobstore/local"},
 			"stub": {"data and index block devices (simdisk: volatile write log, sync, lost/torn writes)", "state directory (simdir: unsynced entries and file content)", "clock (simulated)", "sources/sinks", "scheduling (verifsimrt)"},
 		},
 		Rule:           "a forward run (1-3 clients, uploads/reads/existence checks/sleeps, both syncer routines, optional sync and state-write failures) records the media after every I/O operation; every recorded crash point (sampled beyond the tier's cap) x post-crash media {everything volatile lost; index kept but unsynced data lost; tape-chosen subsets with torn sector writes, lost index records and lost directory operations; process crash} is restarted and checked: every object served or reported present has exactly its uploaded bytes and no integrity signal fires, before and after fresh uploads; recoveries are themselves crashed (nested); non-trivial = forward run acknowledged uploads and more than two crash points were explored",
